@@ -101,7 +101,7 @@ fn main() {
     let (n_hist, steps) = match (thorough, std::env::var("HX_HIST").ok().and_then(|s| s.parse::<u64>().ok())) {
         (_, Some(n)) => (n, env_u64("HX_STEPS", 60)),
         (false, None) => (env_u64("HX_HIST_QUICK", 30), 60),
-        (true, None) => (600, 90),
+        (true, None) => (hx_common::shard_share(600), 90),
     };
     let replay = std::env::var("HX_REPLAY").ok();
     let mut indices: Vec<u64> = (0..n_hist).collect();
